@@ -159,6 +159,18 @@ let handle_src (w : Stdlib.String.t list) : Stdlib.String.t =
             | SOk c -> "FAIL " ^ string_of_int (int_of_n c) ^ (if o = [] then "" else " OUTPUT " ^ hex o)
             | SErr w -> "ERR " ^ coqstr w)
        | SErr w -> "ERR " ^ coqstr w)
+  | ["main"; opts; fopens] ->
+      (* the whole program from translated source (SrcRun6.src_main): opts = code:arghex|- ,... ; fopens (call order) = - | =hex ,... *)
+      let opt o = (match String.split_on_char ':' o with
+                   | [c; "-"] -> (z_of_int (int_of_string c), None)
+                   | [c; a] -> (z_of_int (int_of_string c), Some (unhex a))
+                   | _ -> (z_of_int 63, None)) in
+      let opts = if opts = "-" then [] else List.map opt (String.split_on_char ',' opts) in
+      let fo f = if f = "-" then None else Some (unhex (String.sub f 1 (String.length f - 1))) in
+      let fopens = if fopens = "" then [] else List.map fo (String.split_on_char ',' fopens) in
+      (match Model.src_main (buf ()) (hbuf ()) opts fopens (n_of_int (sched_seed ())) with
+       | SOk (rc, outs) -> Printf.sprintf "RC %d streams=%s" (int_of_z rc) (String.concat "|" (List.map hex outs))
+       | SErr w -> "ERR " ^ coqstr w)
   | ["hist"; ops] ->
       (* library-level operations one after the other in ONE process image (the process layer of SrcRun5 is carried over):
          enc,CM,HM,T,KEY,SEED,PLAIN ; dec,T,KEY,FILE ; ver,T,KEY,FILE -- results in the format of the single operations *)
